@@ -1,6 +1,8 @@
 """C09 — an HTLC is forwarded only if it meets the advertised policy and loses no money."""
+import hashlib
 import json
 import os
+import shutil
 
 from lib.verif import *
 
@@ -16,7 +18,10 @@ TARGETS = ["theories/Policy/Props.vo", "theories/Policy/Exec.vo",
 HARNESS = ["htlcswitch/verif_policy_test.go"]
 WARM = [{"pkg": "htlcswitch", "files": HARNESS}]
 IMPORTS = ("From Coq Require Import List ZArith NArith.\nImport ListNotations.\n"
-           "From LV Require Import Policy.Model Policy.Exec.\n")
+           "From LV Require Import Policy.Model Policy.Exec.\n"
+           # lib.coq_mismatches parses `(i%N, [..])` with a regex that does not survive
+           # Coq's line wrapping ("( 16%N, ..."): print on one line.
+           "Set Printing Width 1000000.\n")
 
 WIRE = ["nil", "FeeInsufficient", "AmountBelowMinimum", "TemporaryChannelFailure",
         "ExpiryTooSoon", "ExpiryTooFar", "IncorrectCltvExpiry", "TemporaryNodeFailure",
@@ -40,6 +45,80 @@ def case_term(c):
         " ".join(zt(c[k]) for k in ("in", "out", "inexp", "outexp", "ibase", "irate", "height")),
         " ".join(zt(c[k]) for k in ("code", "detail", "arg")),
         "")
+
+
+# ---------------------------------------------------------------------------
+# Volume path: the Coq model extracted to OCaml (ExtrOcamlBasic only; Z and
+# positive stay the extracted Coq datatypes), driver ocaml/c09_driver.ml.
+
+EXTRACT_V = ("Require Extraction.\nRequire Import ExtrOcamlBasic.\n"
+             "From LV Require Import Policy.Model Policy.Exec.\n"
+             'Extraction "policy_model.ml" C verdict.\n')
+
+
+def build_ocaml_model():
+    """Extract + compile (cached on the hash of the .vo inputs and driver).
+    Returns (exe or None, log)."""
+    drv = os.path.join(ROOT, "ocaml", "c09_driver.ml")
+    hsh = hashlib.sha1()
+    for f in (os.path.join(THEORIES, "Policy", "Model.v"), os.path.join(THEORIES, "Policy", "Exec.v"), drv):
+        hsh.update(open(f, "rb").read())
+    d = os.path.join(BUILD, "c09_ocaml", hsh.hexdigest()[:16])
+    exe = os.path.join(d, "c09_model")
+    with Lock("c09_ocaml"):
+        if os.path.exists(exe):
+            return exe, "cached"
+        shutil.rmtree(os.path.join(BUILD, "c09_ocaml"), ignore_errors=True)
+        os.makedirs(d)
+        with open(os.path.join(d, "extract.v"), "w") as f:
+            f.write(EXTRACT_V)
+        rc, out = sh(["coqc", "-Q", THEORIES, "LV", "-w", "none", "extract.v"], cwd=d, timeout=600)
+        if rc != 0:
+            return None, "extraction failed:\n" + out
+        shutil.copy(drv, d)
+        rc, out2 = sh(["ocamlfind", "ocamlopt", "-w", "-a", "policy_model.mli", "policy_model.ml",
+                       "c09_driver.ml", "-o", "c09_model.tmp"], cwd=d, timeout=600)
+        if rc != 0:
+            return None, "ocamlopt failed:\n" + out2
+        os.rename(os.path.join(d, "c09_model.tmp"), exe)
+        return exe, out + out2
+
+
+def btok(n):
+    n = int(n)
+    if n == 0:
+        return "0"
+    return ("-" if n < 0 else "") + bin(abs(n))[2:]
+
+
+def case_line(c):
+    t = ["1" if c["kind"] == "transit" else "0"]
+    t += [btok(c[k]) for k in ("min", "max", "base", "rate", "delta", "rej", "maxcltv", "chanbw", "aux", "auxbw")]
+    t += ["1" if c["custom"] else "0", "1" if c["updok"] else "0"]
+    t += [btok(c[k]) for k in ("in", "out", "inexp", "outexp", "ibase", "irate", "height", "code", "detail", "arg")]
+    return " ".join(t)
+
+
+def ocaml_verdicts(exe, rows):
+    """Returns list of (agree, machine_eq_spec_in_D) or None on failure."""
+    from concurrent.futures import ThreadPoolExecutor
+    nsh = max(1, min(NCPU, len(rows) // 20000))
+    step = (len(rows) + nsh - 1) // nsh
+    chunks = [rows[i:i + step] for i in range(0, len(rows), step)]
+
+    def one(chunk):
+        rc, out = sh([exe], stdin="\n".join(case_line(c) for c in chunk) + "\n", timeout=1500)
+        lines = out.split("\n")[:-1] if rc == 0 else []
+        if rc != 0 or len(lines) != len(chunk):
+            return None, out[-1000:]
+        return [(l[0] == "1", l[2] == "1") for l in lines], ""
+    res = []
+    with ThreadPoolExecutor(max_workers=nsh) as ex:
+        for v, err in ex.map(one, chunks):
+            if v is None:
+                return None, err
+            res += v
+    return res, ""
 
 
 # ---------------------------------------------------------------------------
@@ -201,7 +280,7 @@ def run(ctx):
     if ctx.replay:
         return replay(ctx)
     if ctx.thorough:
-        ncases = {"VERIF_CASES": os.environ.get("VERIF_CASES", "300000")}
+        ncases = {"VERIF_CASES": os.environ.get("VERIF_CASES", "400000")}
     rc, trace, out = run_harness(ctx.uid(), "htlcswitch", HARNESS, "^TestVerifPolicy$",
                                  env=ncases, timeout=1500)
     allrows = read_jsonl(trace)
@@ -261,14 +340,42 @@ def run(ctx):
         ctx.violation("correspondence_mismatch", "Policy.Exec.sel_ok",
                       {"case": sel[ci]}, signature="select mismatch",
                       failing_input=bool(sel_predicate(sel[ci])))
-    # ---- correspondence (kernel path, vm_compute)
-    terms = [case_term(c) for c in rows]
-    shard = max(200, len(terms) // NCPU + 1)
-    ok, bad, logs = coq_mismatches(ctx.uid(), IMPORTS, terms, shard=shard,
-                                   mism="mismatches_all", scope="Z_scope")
+    # ---- correspondence, volume path: extracted model on EVERY case
+    exe, xlog = build_ocaml_model()
+    verd = None
+    if exe:
+        verd, xlog = ocaml_verdicts(exe, rows)
+    if verd is None:
+        ctx.violation("correspondence_mismatch", "Policy.Exec (extracted model failed to build/run)",
+                      {"log": xlog[-3000:]}, signature="model-eval", failing_input=False)
+        verd = []
+    flagged = [i for i, v in enumerate(verd) if not (v[0] and v[1])]
+    # ---- correspondence, kernel path (vm_compute inside Coq): a fixed slice,
+    # the fixed witnesses, and every case the volume path flagged; the two
+    # paths have to agree there (cross-check of the extraction).
+    kslice = 3000 if ctx.thorough else 400
+    stride = max(1, len(rows) // kslice)
+    kidx = sorted(set(range(min(5, len(rows)))) | set(range(0, len(rows), stride)) | set(flagged[:60]))
+    if not verd:
+        kidx = list(range(len(rows)))       # extraction unavailable: everything in the kernel
+    terms = [case_term(rows[i]) for i in kidx]
+    ok, kbad, logs = coq_mismatches(ctx.uid(), IMPORTS, terms, shard=max(100, len(terms) // 8 + 1),
+                                    mism="mismatches_all", scope="Z_scope")
     if not ok:
         ctx.violation("correspondence_mismatch", "Policy.Exec (model evaluation failed)",
                       {"logs": logs}, signature="model-eval", failing_input=False)
+    kflag = {}
+    for j, m in kbad:
+        kflag.setdefault(kidx[j], []).append(m)
+    if verd:
+        for i in kidx:
+            if (i in kflag) != (not (verd[i][0] and verd[i][1])):
+                ctx.violation("correspondence_mismatch", "extracted model vs kernel evaluation disagree",
+                              {"case": rows[i], "kernel": kflag.get(i), "extracted": verd[i]},
+                              signature="extraction", failing_input=False)
+                break
+    bad = [(i, m) for i, ms in sorted(kflag.items()) for m in ms]
+    nmism = len(flagged) if verd else len(kflag)
     shown = 0
     for ci, m in bad:
         c = rows[ci]
@@ -282,10 +389,30 @@ def run(ctx):
         ctx.violation("correspondence_mismatch", "Policy.Exec.check_case",
                       {"case": c, "implementation": [c["code"], c["detail"], c["arg"]],
                        "model": m, "model_name": WIRE[m[0]] + DETAIL.get(m[1], "?"),
-                       "clauses": clauses(c)},
+                       "clauses": clauses(c), "cases_disagreeing": nmism},
                       signature="policy mismatch impl=%s model=%s" % (c["name"], WIRE[m[0]]),
                       failing_input=bool(predicate(c)))
     if not pr["ok"] and not ctx.violations:
+        # proof stage broke but nothing concrete yet: directed search with a
+        # different seed and 5x the cases (predicate + extracted model)
+        rc2, trace2, _ = run_harness(ctx.uid("d"), "htlcswitch", HARNESS, "^TestVerifPolicy$",
+                                     env={"VERIF_CASES": str(5 * 40000), "VERIF_SEED": str(ctx.seed + 7919)},
+                                     timeout=1500)
+        rows2 = [c for c in read_jsonl(trace2) if c["kind"] != "select"] if rc2 == 0 else []
+        found = 0
+        v2 = ocaml_verdicts(exe, rows2)[0] if (exe and rows2) else None
+        for i, c in enumerate(rows2):
+            f = predicate(c)
+            if f or (v2 and not (v2[i][0] and v2[i][1])):
+                found += 1
+                ctx.violation("impl_violates_predicate" if f else "correspondence_mismatch",
+                              "directed search after broken proof stage",
+                              {"case": c, "fails": f}, signature="policy directed: %s" % (f[0] if f else c["name"]),
+                              failing_input=bool(f))
+                if found >= 2:
+                    break
+        ctx.cov["directed_search_cases"] = len(rows2)
+    if not pr["ok"] and not any(json.load(open(v)).get("failing_input_found") for v in ctx.violations):
         ctx.violation("proof_broken", ", ".join(pr["broken"]) or "Policy build",
                       {"log": pr["log"][-4000:]}, signature="proof", failing_input=False)
     # ---- coverage
@@ -309,7 +436,9 @@ def run(ctx):
         "kinds": hist(lambda c: c["kind"]),
         "aux_modes": hist(lambda c: c["aux"]),
         "samples": [inputs_of(rows[0]), inputs_of(rows[len(rows) // 2])],
-        "correspondence_mismatches": len(bad),
+        "correspondence_mismatches": nmism,
+        "model_paths": {"extracted_ocaml_cases": len(verd), "kernel_vm_compute_cases": len(kidx),
+                        "kernel_flagged": len(kflag)},
         "selection_cases": len(sel),
         "selection_distinct": distinct_count(sel, lambda c: [c["elig"], c["checks"], c["req"]]),
         "selection_outcomes": {k: sum(1 for c in sel if c["name"] == k)
